@@ -133,6 +133,7 @@ EdgeHandle TopologyKernel::add_edge(VertexHandle _fromVertex,
             }
         } else {
             for(int i = 0; i < (int)edges_.size(); ++i) {
+                if(is_deleted(EdgeHandle(i))) continue;
                 if(edge(EdgeHandle(i)).from_vertex() == _fromVertex && edge(EdgeHandle(i)).to_vertex() == _toVertex) {
                     return EdgeHandle(i);
                 } else if(edge(EdgeHandle(i)).from_vertex() == _toVertex && edge(EdgeHandle(i)).to_vertex() == _fromVertex) {
